@@ -429,6 +429,9 @@ type CycleCase struct {
 	// BreakTile k > 0: the k-th tile response of the run is a 200 whose body breaks off half
 	// way (connection lost); the feeder must get over it in a later attempt or cycle
 	BreakTile int `json:"break_tile,omitempty"`
+	// RaceHead[i]: right after the stub has served /latest at Sizes[i] for the first time
+	// it publishes Sizes[i+1] (the log grows while the feeder is working on the step)
+	RaceHead []bool `json:"race_head,omitempty"`
 }
 
 // bumpAdapter moves the witness forward behind the feeder's back, once per armed step.
@@ -437,9 +440,31 @@ type bumpAdapter struct {
 	mu   sync.Mutex
 	to   uint64 // armed intermediate size (0 = none)
 	done int
+	bad  error // first submission with a wrong proof
+}
+
+// badProof reports the first submission whose proof the independent verifier rejects.
+func (a *bumpAdapter) badProof() error {
+	a.mu.Lock()
+	defer a.mu.Unlock()
+	return a.bad
 }
 
 func (a *bumpAdapter) Update(ctx context.Context, logID string, oldSize uint64, newCP []byte, proof [][]byte) ([]byte, error) {
+	// every submission of the feeder is for an honest pair of sizes of the one tree: its
+	// proof must be a consistency proof for exactly that pair
+	if text, _, ok := vlib.SplitNote(newCP); ok {
+		if tree, err := tlog.ParseTree([]byte(text)); err == nil && oldSize > 0 && oldSize < uint64(tree.N) {
+			r1, r2 := sumBranch.Root(oldSize), sumBranch.Root(uint64(tree.N))
+			if !vlib.VerifyConsistencyStrict(oldSize, uint64(tree.N), r1[:], r2[:], proof) {
+				a.mu.Lock()
+				if a.bad == nil {
+					a.bad = fmt.Errorf("the SumDB feeder submitted checkpoint %d with old size %d and a proof of %d hashes that is NOT a consistency proof for that pair (independent RFC 6962 verifier)", tree.N, oldSize, len(proof))
+				}
+				a.mu.Unlock()
+			}
+		}
+	}
 	a.mu.Lock()
 	b := a.to
 	a.to = 0
@@ -458,13 +483,26 @@ func runCycles(c *CycleCase) (bool, []string, error) {
 	hr := branchHashReader{sumBranch}
 	var mu sync.Mutex
 	cur := c.Sizes[0]
-	partial := false
+	partial, raced := false, false
+	raceNext := map[uint64]uint64{}
+	for i := range c.Sizes {
+		if i < len(c.RaceHead) && c.RaceHead[i] && i+1 < len(c.Sizes) {
+			raceNext[c.Sizes[i]] = c.Sizes[i+1]
+		}
+	}
 	rec := &recorder{}
 	rec.serve = func(p string) (int, []byte) {
 		mu.Lock()
 		size := cur
 		mu.Unlock()
 		if p == "/latest" {
+			mu.Lock()
+			if next, ok := raceNext[size]; ok {
+				cur = next // the head moves on as soon as this answer is out
+				delete(raceNext, size)
+				raced = true
+			}
+			mu.Unlock()
 			return 200, sumdbLatest(size)
 		}
 		tile, err := tlog.ParseTilePath(strings.TrimPrefix(p, "/"))
@@ -533,14 +571,19 @@ func runCycles(c *CycleCase) (bool, []string, error) {
 			ba.mu.Unlock()
 		}
 		mu.Lock()
-		cur = s
+		if cur < s {
+			cur = s
+		}
 		mu.Unlock()
-		want := sumBranch.Root(s)
 		deadline := time.Now().Add(20 * time.Second)
 		for {
+			if err := ba.badProof(); err != nil {
+				return true, []string{"cycles"}, err
+			}
 			if b, err := w.GetCheckpoint(id); err == nil {
 				h := e.ScanCheckpoint(b)
-				if h.ParseOK && h.Size == s && bytes.Equal(h.Root, want[:]) {
+				// this size, or (when the head raced ahead) a later published one
+				if want := sumBranch.Root(h.Size); h.ParseOK && h.Size >= s && bytes.Equal(h.Root, want[:]) {
 					break
 				}
 			}
@@ -554,7 +597,15 @@ func runCycles(c *CycleCase) (bool, []string, error) {
 			time.Sleep(5 * time.Millisecond)
 		}
 	}
+	if err := ba.badProof(); err != nil {
+		return true, []string{"cycles"}, err
+	}
 	cls := []string{fmt.Sprintf("cycles:%d", len(c.Sizes))}
+	mu.Lock()
+	if raced {
+		cls = append(cls, "head-moved-during-a-step")
+	}
+	mu.Unlock()
 	if ba.done > 0 {
 		cls = append(cls, "witness-moved-under-the-feeder")
 	}
@@ -567,7 +618,7 @@ func runCycles(c *CycleCase) (bool, []string, error) {
 }
 
 func TestC18Cycles(t *testing.T) {
-	st := vlib.StatsFor("C18", "cycles", "ONE periodic sumdb.FeedLog (interval 15ms) follows a stub SumDB that grows through 3-7 drawn sizes (steps inside one tile, across tile boundaries, up to 2^17) into a real witness: in about half of the steps the witness is moved honestly to an intermediate size while the feeder is submitting (its submission is refused as stale and it must redo the step from there); in half of the cases one tile response breaks off in the middle of its body; state carried by the feeder across cycles and retries must not spoil later proofs; non-trivial = a partial tile was needed")
+	st := vlib.StatsFor("C18", "cycles", "ONE periodic sumdb.FeedLog (interval 15ms) follows a stub SumDB that grows through 3-7 drawn sizes (steps inside one tile, across tile boundaries, up to 2^17) into a real witness: in about half of the steps the witness is moved honestly to an intermediate size while the feeder is submitting (its submission is refused as stale and it must redo the step from there); in half of the cases one tile response breaks off in the middle of its body; in 30% of the steps the log's head moves on right after the feeder read it; every proof the feeder submits is checked by the independent verifier for exactly the submitted pair; state carried by the feeder across cycles and retries must not spoil later proofs; non-trivial = a partial tile was needed")
 	rapid.Check(t, func(rt *rapid.T) {
 		n := rapid.IntRange(3, 7).Draw(rt, "n")
 		c := &CycleCase{}
@@ -588,11 +639,14 @@ func TestC18Cycles(t *testing.T) {
 			}
 			c.Bump = append(c.Bump, b)
 		}
+		for i := range c.Sizes {
+			c.RaceHead = append(c.RaceHead, i+1 < len(c.Sizes) && vlib.Pct(rt, 30, "racehead"))
+		}
 		if rapid.Bool().Draw(rt, "breaktile") {
 			c.BreakTile = rapid.IntRange(1, 6).Draw(rt, "breakat")
 		}
 		nt, cl, err := runCycles(c)
-		st.Record(fmt.Sprint(c.Sizes, c.Bump, c.BreakTile), nt, cl, vlib.SampleOf(c))
+		st.Record(fmt.Sprint(c.Sizes, c.Bump, c.BreakTile, c.RaceHead), nt, cl, vlib.SampleOf(c))
 		if err != nil {
 			vlib.SaveFailure("C18", "cycles", c, err)
 			rt.Fatalf("C18 violated: %v", err)
